@@ -109,6 +109,24 @@ func c05Program(kind, op string, a, b *operand, mode string) *DCase {
 			stmts = append(stmts, ast.ExprS(ast.Set(ast.Id("vb"), b.Lit())))
 			eb = ast.Id("vb")
 		}
+	case "elem":
+		// the operands come out of containers
+		ea = ast.Idx(ast.Arr(a.Lit()), ast.Num("0"))
+		if b != nil {
+			eb = ast.Mem(ast.Paren(ast.Obj(ast.KV("v", b.Lit()))), "v")
+		}
+	case "ret":
+		// the operands are returned by functions (declared below)
+		ea = ast.Call(ast.Id("reta"))
+		if b != nil {
+			eb = ast.Call(ast.Id("retb"))
+		}
+	case "loop":
+		// the operands are for-in loop variables
+		ea = ast.Id("la")
+		if b != nil {
+			eb = ast.Id("lb")
+		}
 	case "same":
 		// the same variable on both sides of the operator
 		stmts = append(stmts, ast.ExprS(ast.Set(ast.Id("va"), a.Lit())))
@@ -143,7 +161,21 @@ func c05Program(kind, op string, a, b *operand, mode string) *DCase {
 	case "is":
 		e = ast.Is(ea, op)
 	}
-	stmts = append(stmts, ast.ExprS(ast.Set(ast.Id("r"), e)))
+	compute := []*ast.Node{ast.ExprS(ast.Set(ast.Id("r"), e))}
+	switch mode {
+	case "ret":
+		items = append(items, ast.Func("reta", nil, ast.Block(ast.Return(a.Lit()))))
+		if b != nil {
+			items = append(items, ast.Func("retb", nil, ast.Block(ast.Return(b.Lit()))))
+		}
+	case "loop":
+		inner := ast.Block(compute...)
+		if b != nil {
+			inner = ast.Block(ast.ForIn("lb", "", ast.Arr(b.Lit()), inner))
+		}
+		compute = []*ast.Node{ast.ForIn("la", "", ast.Arr(a.Lit()), inner)}
+	}
+	stmts = append(stmts, compute...)
 	stmts = append(stmts, c05Observe()...)
 	c := &DCase{}
 	if mode == "doc" {
@@ -185,7 +217,7 @@ func c05Labels(kind, op string, a, b *operand) []string {
 
 func TestC05(t *testing.T) {
 	rec := start(t, "C05", "exploration",
-		"exhaustive grid: every operator x every ordered pair of representative operands (num, str, bool, null, unset, arr, obj, regex, fn, native) x supply mode (literal, variable, document field), plus `is` x 9 type names and unary ! - +; then random (op, a, b) with generated scalar values. One tiny program per case; expected kind and value (or RuntimeError) from the section-3 tables as implemented by refjq. Every case is non-trivial; distinct = distinct (operator, operand representatives or values, supply mode).")
+		"exhaustive grid: every operator x every ordered pair of representative operands (num, str, bool, null, unset, arr, obj, regex, fn, native) x supply mode (literal, variable, document field, container element / member, function result, for-in loop variable), plus `is` x 9 type names and unary ! - +; then random (op, a, b) with generated scalar values. One tiny program per case; expected kind and value (or RuntimeError) from the section-3 tables as implemented by refjq. Every case is non-trivial; distinct = distinct (operator, operand representatives or values, supply mode).")
 	defer rec.Finish()
 	rec.Assume("refjq's section-3 tables are the documented coercion rules (DESIGN.md section 3, reviewed against the property text)")
 	rec.Assume("Go's regexp package decides RE2 validity and matching for ~ and !~")
@@ -219,6 +251,9 @@ func TestC05(t *testing.T) {
 		}
 		if a.JSON != "" && (b == nil || b.JSON != "") {
 			ms = append(ms, "doc")
+		}
+		if a.Var && (b == nil || b.Var) {
+			ms = append(ms, "elem", "ret", "loop")
 		}
 		return ms
 	}
@@ -317,7 +352,7 @@ func TestC05(t *testing.T) {
 		case "is":
 			op = rapid.SampledFrom(c05Types).Draw(rt, "op")
 		}
-		mode := rapid.SampledFrom([]string{"lit", "var", "var", "same"}).Draw(rt, "mode")
+		mode := rapid.SampledFrom([]string{"lit", "var", "var", "same", "elem", "ret", "loop"}).Draw(rt, "mode")
 		if mode == "same" && kind != "bin" {
 			mode = "var"
 		}
